@@ -78,11 +78,15 @@ pub fn run(args: &Args) {
     let deadline_s = args.param_u64("deadline_s", if args.tier == Tier::Quick { 600 } else { 3 * 3600 });
     let started = std::time::Instant::now();
 
+    // What each worker is busy with (for the stall watchdog below).
+    let in_flight: Arc<std::sync::Mutex<Vec<Option<(String, std::time::Instant)>>>> =
+        Arc::new(std::sync::Mutex::new(vec![None; threads]));
     let mut handles = Vec::new();
     for t in 0..threads {
         let jobs = jobs.clone();
         let next = next.clone();
         let tx = tx.clone();
+        let in_flight = in_flight.clone();
         handles.push(
             std::thread::Builder::new()
                 .name(format!("c39-{t}"))
@@ -94,12 +98,20 @@ pub fn run(args: &Args) {
                         if i >= jobs.len() || started.elapsed().as_secs() > deadline_s {
                             break;
                         }
+                        in_flight.lock().unwrap()[t] = Some((
+                            match jobs[i] {
+                                Job::History(c) => format!("stage=history case={c}"),
+                                Job::Hostile(c) => format!("stage=hostile case={c}"),
+                            },
+                            std::time::Instant::now(),
+                        ));
                         let (is_hist, r) = match jobs[i] {
                             Job::History(c) => (true, rt.block_on(history::run_case(seed, c, c < 2 || full))),
                             Job::Hostile(c) => {
                                 (false, rt.block_on(hostile::run_case(seed, c, per_case as usize, big, c < 2 || full)))
                             }
                         };
+                        in_flight.lock().unwrap()[t] = None;
                         if tx.send((is_hist, r)).is_err() {
                             break;
                         }
@@ -113,7 +125,30 @@ pub fn run(args: &Args) {
     let mut done_hist = 0u64;
     let mut done_host = 0u64;
     let total = jobs.len() as u64;
-    for (is_hist, r) in rx {
+    // Stall watchdog: a case that keeps a worker busy (CPU-bound inside the code under test, which
+    // cannot be interrupted in-process) for longer than `case_stall_s` ends the run as
+    // inconclusive, naming the case. It is never a verdict.
+    let case_stall_s = args.param_u64("case_stall_s", if args.tier == Tier::Quick { 420 } else { 1500 });
+    let mut stalled: Vec<String> = Vec::new();
+    loop {
+        let (is_hist, r) = match rx.recv_timeout(std::time::Duration::from_secs(5)) {
+            Ok(x) => x,
+            Err(mpsc::RecvTimeoutError::Disconnected) => break,
+            Err(mpsc::RecvTimeoutError::Timeout) => {
+                stalled = in_flight
+                    .lock()
+                    .unwrap()
+                    .iter()
+                    .flatten()
+                    .filter(|(_, since)| since.elapsed().as_secs() > case_stall_s)
+                    .map(|(what, since)| format!("{what} ({} s)", since.elapsed().as_secs()))
+                    .collect();
+                if stalled.is_empty() {
+                    continue;
+                }
+                break;
+            }
+        };
         let done = done_hist + done_host + 1;
         if total >= 200 && done % (total / 20) == 0 {
             eprintln!("C39: {done}/{total} cases, {:.0}s", started.elapsed().as_secs_f64());
@@ -140,16 +175,24 @@ pub fn run(args: &Args) {
         }
     }
     let mut worker_died = false;
-    for h in handles {
-        if h.join().is_err() {
-            worker_died = true;
+    if stalled.is_empty() {
+        for h in handles {
+            if h.join().is_err() {
+                worker_died = true;
+            }
         }
+    } else {
+        rep.inconclusive(format!(
+            "watchdog: case(s) did not finish within {case_stall_s} s of CPU-bound processing (not a \
+             verdict; replay with `--seed {seed} <case>`): {}",
+            stalled.join(", ")
+        ));
     }
     if worker_died {
         rep.inconclusive("a harness worker thread died outside catch_unwind (harness bug or abort)");
     }
     let planned = jobs.len() as u64;
-    if done_hist + done_host < planned {
+    if done_hist + done_host < planned && stalled.is_empty() {
         rep.inconclusive(format!(
             "wall-clock budget of {deadline_s} s reached after {} of {planned} cases",
             done_hist + done_host
@@ -166,4 +209,8 @@ pub fn run(args: &Args) {
     rep.extra("threads", json!(threads));
     rep.extra("oversized_vector_len_max", json!(big));
     rep.finish(args);
+    if !stalled.is_empty() {
+        // Stuck workers cannot be joined.
+        std::process::exit(0);
+    }
 }
